@@ -259,9 +259,21 @@ func checkC09(c *hx.Ctx) {
 	c.Assume("Go crypto and btcec are trusted; a header edit counts as an alteration only if the header value changes or stops parsing (DESIGN Appendix B)")
 	pool := hx.NewPool(c, "jws", 16, 4*1024*1024, 30*time.Second)
 	defer pool.Close()
+	// the concurrent mode is one long call (seconds under the race detector, more on a loaded machine): it gets a pool of its
+	// own with a generous watchdog, whose firing means "too slow to tell", not a violation
+	slowPool := hx.NewPool(c, "jws", 2, 4*1024*1024, 15*time.Minute)
+	defer slowPool.Close()
 	call := func(cs jwsCase) (string, string, bool) {
 		b, _ := json.Marshal(cs)
-		reply, crash := pool.Call(b)
+		pl := pool
+		if cs.Kind == "concurrent" {
+			pl = slowPool
+		}
+		reply, crash := pl.Call(b)
+		if crash != nil && cs.Kind == "concurrent" && strings.HasPrefix(crash.CrashSig(), "watchdog") {
+			c.Inconclusive("the concurrent JWS workload did not finish within its 15-minute watchdog")
+			return "", "", false
+		}
 		if crash != nil {
 			c.Violation("C09 JWS code crashed the process: "+crash.CrashSig(), map[string]interface{}{"case": cs, "stderr": crash.Detail})
 			return "", "", false
